@@ -94,7 +94,9 @@ func (te *tableEngine) tableGameOpen() error {
 		}
 	}
 	te.verifHook("open.swap")
+	te.playersMu.Lock()
 	te.table = newTable
+	te.playersMu.Unlock()
 	te.emitEvent("tableGameOpen", "")
 
 	// 啟動本手遊戲引擎
